@@ -25,10 +25,11 @@ namespace LyModel.Valid
 open LyModel LyModel.Tree
 
 mutual
-/-- the data the client supplied: everything flagged default dropped (implicit nodes, empty non-presence containers) -/
+/-- the data the client supplied: everything flagged default dropped (implicit nodes, empty non-presence containers); the
+bookkeeping of the library (flags, metadata) is not part of the data -/
 def explicitNode : DNode → Option DNode
-  | .inner s f m ks => if f.dflt then none else some (.inner s f m (explicitL ks))
-  | .term s f m v => if f.dflt then none else some (.term s f m v)
+  | .inner s f _ ks => if f.dflt then none else some (.inner s {} [] (explicitL ks))
+  | .term s f _ v => if f.dflt then none else some (.term s {} [] v)
 def explicitL : List DNode → List DNode
   | [] => []
   | n :: ns => match explicitNode n with
@@ -66,18 +67,21 @@ mutual
 def specNode (X : SchemaX) (o : VOpts) : STree → List DNode → List EKind
   | .mk s i ks, sibs =>
     let insts := instsOf sibs s
-    let stateV : List EKind := if o.noState && !i.config && !insts.isEmpty then [.unexpState] else []
+    -- when the content is configuration only (`noState`) no state data may exist, and the cardinality constraints of a state
+    -- node (mandatory, min-/max-elements, unique) ask for nothing; what is there must still be a well-formed data tree
+    let st := o.noState && !i.config
+    let stateV : List EKind := if st && !insts.isEmpty then [.unexpState] else []
     match i.kind with
     | .leaf =>
       stateV
         ++ (if insts.length > 1 then [.dup] else [])
-        ++ (if i.mandatory && insts.isEmpty then [.noMand] else [])
+        ++ (if !st && i.mandatory && insts.isEmpty then [.noMand] else [])
         ++ (if insts.all (fun n => typeOk i.ty n.val) then [] else [.badValue])
     | .leaflist =>
       stateV
         ++ (if i.config && !pairwiseNe (fun a b : DNode => a.val == b.val) insts then [.dup] else [])
-        ++ (if insts.length < i.min then [.noMin] else [])
-        ++ (if i.max != 0 && insts.length > i.max then [.noMax] else [])
+        ++ (if !st && insts.length < i.min then [.noMin] else [])
+        ++ (if !st && i.max != 0 && insts.length > i.max then [.noMax] else [])
         ++ (if insts.all (fun n => typeOk i.ty n.val) then [] else [.badValue])
     | .container =>
       stateV
@@ -92,15 +96,15 @@ def specNode (X : SchemaX) (o : VOpts) : STree → List DNode → List EKind
       stateV
         ++ (if keysOk X.base (.mk s i ks) insts then [] else [.noKey])
         ++ (if i.nkeys != 0 && !pairwiseNe (fun a b : DNode => keyVals X.base a == keyVals X.base b) insts then [.dup] else [])
-        ++ (if insts.length < i.min then [.noMin] else [])
-        ++ (if i.max != 0 && insts.length > i.max then [.noMax] else [])
-        ++ (if (X.uniquesOf s).all (fun u => uniqueOk (.mk s i ks) u insts) then [] else [.noUniq])
+        ++ (if !st && insts.length < i.min then [.noMin] else [])
+        ++ (if !st && i.max != 0 && insts.length > i.max then [.noMax] else [])
+        ++ (if st || (X.uniquesOf s).all (fun u => uniqueOk (.mk s i ks) u insts) then [] else [.noUniq])
         ++ insts.flatMap (fun e => specL X o ks e.kids)
     | .choice =>
       -- the cases that have data
       let live := ks.filter fun cs => hasData sibs cs.dataSids
       (if live.length > 1 then [.dupCase] else [])
-        ++ (if i.mandatory && live.isEmpty then [.noMandChoice] else [])
+        ++ (if !st && i.mandatory && live.isEmpty then [.noMandChoice] else [])
         ++ specCases X o ks sibs
     | .case => specL X o ks sibs
 /-- the schema children `ks` on one sibling list -/
